@@ -183,7 +183,7 @@ class Caller(object):
             [(par.Cores, [3, 5, 18][t.draw(3)]), (par.SDRAM, 100000),
              (par.SRAM, 1024)]),
             {}, dead, dead_links)
-        g = prgen.Graph()
+        g = prgen.Graph(t)
         for _ in range(t.draw(8)):
             prgen.add_net(t, g, par, max_fanout=4)
         for _ in range(t.draw(3)):
@@ -296,7 +296,7 @@ class Caller(object):
             placements = r[1]
             if t.draw(3) == 0:
                 placements = collections.OrderedDict(
-                    sorted(placements.items(), key=lambda kv: kv[0].i))
+                    sorted(placements.items(), key=lambda kv: prgen.vid(kv[0])))
             label = "allocate"
             r = self.guarded(label, alloc.allocate,
                              (vr, nets, machine, constraints, placements), {},
@@ -498,7 +498,7 @@ class Caller(object):
             pname, pfn, pkw = self.placer(t, None)
             self.seed_globals(t)
             vr, nets = g.vertices_resources, g.nets
-            apps = {v: ["a.aplx", "b.aplx"][v.i % 2] for v in vr}
+            apps = {v: ["a.aplx", "b.aplx"][prgen.vid(v) % 2] for v in vr}
             cons = constraints[1:]
             silist = [dict(si), si.width, si.height]
             label = "place_and_route_wrapper[%s]" % pname
@@ -583,7 +583,7 @@ class Caller(object):
         if r[0] != "ok":
             return "toolbox-chain", self.norm(r)
         allocations = r[1]
-        apps = {v: ["a.aplx", "b.aplx", "c.aplx"][v.i % 3] for v in vr}
+        apps = {v: ["a.aplx", "b.aplx", "c.aplx"][prgen.vid(v) % 3] for v in vr}
         out = [self.guarded("build_application_map",
                             putils.build_application_map,
                             (apps, placements, allocations), {},
